@@ -118,6 +118,16 @@ fn depths(m: &UserModel) -> (usize, usize, usize) { m.verif_history_depths() }
 
 /// operation kind refined by what the target cell held (only for typed input): the undo of
 /// typing into an absent cell is a different code path from typing over a spill or an array
+/// after the call: typed input that produced a (dynamic) array anchor goes through another undo path
+fn kind_ctx_after(m: &UserModel, op: &Op, kc: &str) -> String {
+    use ironcalc_base::types::Cell;
+    if let Op::Input { sheet, row, col, .. } = op {
+        let c = m.get_model().workbook.worksheets.get(*sheet as usize).and_then(|w| w.sheet_data.get(row)).and_then(|r| r.get(col));
+        if matches!(c, Some(Cell::ArrayFormula { .. })) { return kc.replacen("input@", "input-array@", 1); }
+    }
+    kc.to_string()
+}
+
 fn kind_ctx(m: &UserModel, op: &Op) -> String {
     use ironcalc_base::types::Cell;
     match op {
@@ -194,6 +204,7 @@ pub fn run_c01(a: &Args) {
             let d1 = depths(&m);
             if d1.0 != d0.0 + 1 { st.nopush += 1; continue; } // succeeded without recording (e.g. rename to same name)
             m.evaluate();
+            let kc = kind_ctx_after(&m, &op, &kc);
             let s1 = snap(&m);
             ev_in.push(format!("d{}", it.id(&s1)));
             ev_out.push(format!("{}:1:0", it.id(&s1)));
@@ -343,7 +354,8 @@ pub fn run_c02(a: &Args) {
                         }
                         continue;
                     }
-                    let prev = std::mem::replace(&mut cur, (s.clone(), kc.clone()));
+                    let kc2 = kind_ctx_after(&m, &op, &kc);
+                    let prev = std::mem::replace(&mut cur, (s.clone(), kc2));
                     before.push(prev);
                     after.clear();
                     ev_in.push(format!("d{}", it.id(&s)));
@@ -472,10 +484,9 @@ pub fn run_c04(a: &Args) {
         let mut m = fresh();
         let len = rng.range(4, 14);
         for _ in 0..len { let op = gen_op(&mut rng, &ctx_of(&m), false); let _ = guarded(|| apply_op(&mut m, &op)); }
+        prepare_matrix_state(&mut m);
         let _ = guarded(|| m.undo());
         if sidx % 2 == 0 { let _ = guarded(|| m.undo()); }
-        let bytes_state = m.to_bytes();
-        let _ = bytes_state;
         st.histories += 1;
         for (label, op) in bad_ops.iter() {
             let k = kind(op);
@@ -511,14 +522,69 @@ pub fn run_c04(a: &Args) {
                 m = fresh();
                 let len = rng.range(4, 10);
                 for _ in 0..len { let op = gen_op(&mut rng, &ctx_of(&m), false); let _ = guarded(|| apply_op(&mut m, &op)); }
+                prepare_matrix_state(&mut m);
                 let _ = guarded(|| m.undo());
                 format!("changed:{kind_of}")
             };
             cs.case(&format!("call {k}/{label} err"), &obs);
         }
     }
+    // the one class that needs a particular state: deleting the only sheet
+    {
+        let mut m = fresh();
+        let _ = guarded(|| m.delete_sheet(1));
+        let _ = guarded(|| m.set_user_input(0, 4, 4, "7"));
+        let _ = guarded(|| m.undo());
+        let s0 = snap(&m);
+        let d0 = depths(&m);
+        let res = guarded(|| m.delete_sheet(0));
+        let s1 = snap(&m);
+        let d1 = depths(&m);
+        *st.kinds.entry("delete_sheet/only-sheet".to_string()).or_insert(0) += 1;
+        match res {
+            Ok(Err(_)) => {
+                or.checked += 1;
+                st.err += 1;
+                let obs = if s1 == s0 && d1 == d0 { "unchanged".to_string() } else {
+                    let kind_of = if d1.0 != d0.0 || d1.1 != d0.1 { "history" } else if s1 != s0 { "partial-edit" } else { "queue" };
+                    or.fail(&format!("failed-call-{kind_of}:delete_sheet/only-sheet"), json!({"op": "delete_sheet(0) on a one-sheet workbook after input+undo"}), format!("delete_sheet returned Err but depths {:?} -> {:?}, workbook changed: {}", d0, d1, s1 != s0));
+                    format!("changed:{kind_of}")
+                };
+                cs.case("call delete_sheet/only-sheet err", &obs);
+            }
+            Ok(Ok(())) => cs.case("call delete_sheet/only-sheet accepted", "accepted"),
+            Err(()) => or.fail("panic:delete_sheet/only-sheet", json!({}), "panicked".into()),
+        }
+    }
     st.samples = bad_ops.iter().take(6).map(|(l, o)| format!("{l}: {o:?}")).collect();
     finish(cs, or, st, tags);
+}
+
+/// what some cells of the matrix need in order to reach their failing branch: two custom named
+/// styles, a spilled dynamic array, data in the last row and column, a defined name, a
+/// conditional format, a link, a second sheet called Sheet2 — and two recorded operations on
+/// top, so that undoing one of them leaves both stacks non-empty
+pub fn prepare_matrix_state(m: &mut UserModel) {
+    let n = m.get_model().workbook.worksheets.len();
+    if !m.get_model().workbook.worksheets.iter().any(|w| w.name.to_lowercase() == "sheet2") {
+        let _ = guarded(|| m.new_sheet());
+        let last = m.get_model().workbook.worksheets.len() as u32 - 1;
+        let _ = guarded(|| m.rename_sheet(last, "Sheet2"));
+    }
+    let _ = n;
+    for op in [
+        Op::CreateNamedStyle { name: "MyStyle".into(), bold: true, fmt: "general".into() },
+        Op::CreateNamedStyle { name: "Other".into(), bold: false, fmt: "0.00".into() },
+        Op::ApplyNamedStyle { area: AreaS { sheet: 0, row: 20, col: 1, w: 1, h: 1 }, name: "MyStyle".into() },
+        Op::Input { sheet: 0, row: 30, col: 8, text: "=SEQUENCE(3)".into() },
+        Op::Input { sheet: 0, row: 1_048_576, col: 2, text: "edge".into() },
+        Op::Input { sheet: 0, row: 3, col: 16384, text: "edge".into() },
+        Op::NewName { name: "Name1".into(), scope: None, formula: "Sheet1!$A$1".into() },
+        Op::AddCf { sheet: 0, range: "A1:A6".into(), json: "{\"type\":\"Blanks\",\"format\":{\"font\":null,\"fill\":null,\"border\":null,\"num_fmt\":null,\"alignment\":null},\"stop_if_true\":false}".into() },
+        Op::SetLink { sheet: 0, row: 21, col: 1, target: "https://example.com".into(), label: Some("l".into()) },
+        Op::Input { sheet: 0, row: 22, col: 1, text: "41".into() },
+        Op::Input { sheet: 0, row: 22, col: 2, text: "42".into() },
+    ] { let _ = guarded(|| apply_op(m, &op)); }
 }
 
 /// every mutating method × the classes of invalid argument the property lists
@@ -584,6 +650,19 @@ pub fn invalid_matrix() -> Vec<(String, Op)> {
     add("missing-name", Op::DeleteName { name: "NoSuchName".into(), scope: None });
     add("missing-name", Op::UpdateName { name: "NoSuchName".into(), scope: None, new_name: "Z".into(), new_scope: None, formula: "1".into() });
     add("missing-style", Op::DeleteNamedStyle("NoSuchStyle".into()));
+    add("missing-style", Op::UpdateNamedStyle { name: "NoSuchStyle".into(), new_name: "X".into(), bold: true, fmt: "general".into() });
+    add("new-name-taken", Op::UpdateNamedStyle { name: "MyStyle".into(), new_name: "Other".into(), bold: false, fmt: "0.0".into() });
+    add("new-name-taken-builtin", Op::UpdateNamedStyle { name: "MyStyle".into(), new_name: "Normal".into(), bold: false, fmt: "0.0".into() });
+    add("builtin-style", Op::UpdateNamedStyle { name: "Normal".into(), new_name: "Normal2".into(), bold: false, fmt: "0.0".into() });
+    add("duplicate-name", Op::NewName { name: "Name1".into(), scope: None, formula: "2".into() });
+    add("new-name-taken", Op::UpdateName { name: "Name1".into(), scope: None, new_name: "A1".into(), new_scope: None, formula: "1".into() });
+    add("bad-new-scope", Op::UpdateName { name: "Name1".into(), scope: None, new_name: "Name1".into(), new_scope: Some(57), formula: "1".into() });
+    add("push-off-grid-by-one", Op::InsertRows { sheet: 0, at: 2, n: 1 });
+    add("push-off-grid-by-one", Op::InsertCols { sheet: 0, at: 2, n: 1 });
+    add("split-array", Op::InsertRows { sheet: 0, at: 31, n: 1 });
+    add("split-array", Op::DeleteRows { sheet: 0, at: 31, n: 1 });
+    add("split-array", Op::MoveRows { sheet: 0, at: 31, n: 1, delta: 3 });
+    add("into-spill", Op::ArrayFormula { sheet: 0, row: 31, col: 8, w: 1, h: 1, text: "=1".into() });
     add("builtin-style", Op::DeleteNamedStyle("Normal".into()));
     add("duplicate-style", Op::CreateNamedStyle { name: "Normal".into(), bold: true, fmt: "general".into() });
     add("bad-sheet", Op::AddCf { sheet: bad_sheet, range: "A1:A3".into(), json: "{\"type\":\"Blanks\",\"format\":{\"font\":null,\"fill\":null,\"border\":null,\"num_fmt\":null,\"alignment\":null},\"stop_if_true\":false}".into() });
